@@ -204,7 +204,7 @@ pub fn run(eng: &mut Engine) {
         PartCfg::new(
             "schedules",
             "operation sequences with polling schedules from 1 us steps to minutes over objects with start times (before/at/after now), carousel delay/interval incl. 0, target duration/deadline incl. 0 and past, sizes 0 / one symbol / many, trigger_transfer_at; never-early rules from observed (instant, packet) pairs and event instants, due-ness on drained polls of single-object sessions, no panic and no stall on degenerate inputs; non-trivial = a gate was closed at some poll (read() returned None while an object had work); distinct by case",
-            tier.pick(30_000, 800_000),
+            tier.pick(120_000, 2_500_000),
         )
         .hang_violates()
         .limit_s(60),
